@@ -234,6 +234,116 @@ theorem upper_exact (col : ColT) (b : B) (v : Int) (hv : inCol col v) (hb : b.wf
     | i w => exact upper_i col false w v hv hb
     | u w => exact upper_u col false w v hv hb
 
+/-! ### the guarded table -/
+
+theorem lowerTG_pinned (col : ColT) (x : BV) : lowerTG Guards.pinned col x = lowerT col x := by
+  cases x <;> cases col <;> simp [lowerTG, lowerT, Guards.pinned]
+
+theorem upperTG_pinned (col : ColT) (x : BV) : upperTG Guards.pinned col x = upperT col x := by
+  cases x <;> cases col <;> simp [upperTG, upperT, Guards.pinned]
+
+theorem implMatchG_pinned (col : ColT) (lo hi : B) (v : Int) :
+    implMatchG Guards.pinned col lo hi v = implMatch col lo hi v := by
+  have e1 : lowerTG Guards.pinned col = lowerT col := funext (lowerTG_pinned col)
+  have e2 : upperTG Guards.pinned col = upperT col := funext (upperTG_pinned col)
+  unfold implMatchG implMatch coerce
+  rw [e1, e2]
+
+/-- repaired table, lower end: exact for every bound -/
+theorem lower_exact_repaired (col : ColT) (b : B) (v : Int) (hv : inCol col v) (hb : b.wf) :
+    lowerHolds (applyT (lowerTG Guards.repaired col) b) (enc col v) = lowerSpec b v := by
+  have p63 := pow63
+  have p64 := pow64
+  have p53 := pow53
+  have hfix : ∀ (incl : Bool) (x : BV), x.wf →
+      lowerHolds (applyT (lowerTG Guards.repaired col) (if incl then .incl x else .excl x)) (enc col v)
+        = lowerSpec (if incl then .incl x else .excl x) v := by
+    intro incl x hx
+    cases x with
+    | i w =>
+      have := lower_i col incl w v hv hx
+      cases incl <;> simpa [applyT, lowerTG] using this
+    | u w =>
+      by_cases hbig : col = .i64 ∧ I64MAX < (w : Int)
+      · obtain ⟨hc, hw⟩ := hbig
+        subst hc
+        simp only [inCol, I64MAX] at hv
+        simp only [BV.wf] at hx
+        cases incl <;>
+          simp only [applyT, lowerTG, hw, Guards.repaired, if_true, if_false, Bool.false_eq_true, lowerHolds, lowerSpec] <;>
+          (unfold I64MAX at hw ⊢; fin_bool)
+      · have := lower_u col incl w v hv hx hbig
+        have hl : lowerTG Guards.repaired col (.u w) = lowerT col (.u w) := by
+          cases col
+          · have hle : ¬ (I64MAX < (w : Int)) := fun h => hbig ⟨rfl, h⟩
+            simp [lowerTG, lowerT, hle]
+          · rfl
+        cases incl <;> simpa [applyT, hl] using this
+    | f h =>
+      simp only [BV.wf] at hx
+      cases col
+      · simp only [inCol, I64MAX] at hv
+        have hc : ((ColT.i64 == ColT.u64) && decide (h < 0)) = false := by
+          have : (ColT.i64 == ColT.u64) = false := by decide
+          simp [this]
+        by_cases hev : h % 2 = 0
+        · cases incl <;> simp only [applyT, lowerTG, Guards.repaired, hc, hev, if_true, if_false, Bool.false_eq_true, lowerHolds, lowerSpec] <;> fin_bool
+        · cases incl <;> simp only [applyT, lowerTG, Guards.repaired, hc, hev, if_true, if_false, Bool.false_eq_true, lowerHolds, lowerSpec] <;> fin_bool
+      · simp only [inCol] at hv
+        have hu : (ColT.u64 == ColT.u64) = true := by decide
+        by_cases hneg : h < 0
+        · have hc : ((ColT.u64 == ColT.u64) && decide (h < 0)) = true := by simp [hu, hneg]
+          cases incl <;> simp only [applyT, lowerTG, hc, if_true, if_false, Bool.false_eq_true, lowerHolds, lowerSpec] <;> fin_bool
+        · have hc : ((ColT.u64 == ColT.u64) && decide (h < 0)) = false := by simp [hu, hneg]
+          by_cases hev : h % 2 = 0
+          · cases incl <;> simp only [applyT, lowerTG, Guards.repaired, hc, hev, if_true, if_false, Bool.false_eq_true, lowerHolds, lowerSpec] <;> fin_bool
+          · cases incl <;> simp only [applyT, lowerTG, Guards.repaired, hc, hev, if_true, if_false, Bool.false_eq_true, lowerHolds, lowerSpec] <;> fin_bool
+  cases b with
+  | unb => rfl
+  | incl x => exact hfix true x hb
+  | excl x => exact hfix false x hb
+
+/-- repaired table, upper end: exact for every bound -/
+theorem upper_exact_repaired (col : ColT) (b : B) (v : Int) (hv : inCol col v) (hb : b.wf) :
+    upperHolds (applyT (upperTG Guards.repaired col) b) (enc col v) = upperSpec b v := by
+  have p63 := pow63
+  have p64 := pow64
+  have p53 := pow53
+  have hfix : ∀ (incl : Bool) (x : BV), x.wf →
+      upperHolds (applyT (upperTG Guards.repaired col) (if incl then .incl x else .excl x)) (enc col v)
+        = upperSpec (if incl then .incl x else .excl x) v := by
+    intro incl x hx
+    cases x with
+    | i w =>
+      have := upper_i col incl w v hv hx
+      cases incl <;> simpa [applyT, upperTG] using this
+    | u w =>
+      have := upper_u col incl w v hv hx
+      cases incl <;> simpa [applyT, upperTG] using this
+    | f h =>
+      simp only [BV.wf] at hx
+      cases col
+      · simp only [inCol, I64MAX] at hv
+        have hc : ((ColT.i64 == ColT.u64) && decide (h < 0)) = false := by
+          have : (ColT.i64 == ColT.u64) = false := by decide
+          simp [this]
+        by_cases hev : h % 2 = 0
+        · cases incl <;> simp only [applyT, upperTG, Guards.repaired, hc, hev, if_true, if_false, Bool.false_eq_true, upperHolds, upperSpec] <;> fin_bool
+        · cases incl <;> simp only [applyT, upperTG, Guards.repaired, hc, hev, if_true, if_false, Bool.false_eq_true, upperHolds, upperSpec] <;> fin_bool
+      · simp only [inCol] at hv
+        have hu : (ColT.u64 == ColT.u64) = true := by decide
+        by_cases hneg : h < 0
+        · have hc : ((ColT.u64 == ColT.u64) && decide (h < 0)) = true := by simp [hu, hneg]
+          cases incl <;> simp only [applyT, upperTG, Guards.repaired, hc, if_true, if_false, Bool.false_eq_true, upperHolds, upperSpec] <;> fin_bool
+        · have hc : ((ColT.u64 == ColT.u64) && decide (h < 0)) = false := by simp [hu, hneg]
+          by_cases hev : h % 2 = 0
+          · cases incl <;> simp only [applyT, upperTG, Guards.repaired, hc, hev, if_true, if_false, Bool.false_eq_true, upperHolds, upperSpec] <;> fin_bool
+          · cases incl <;> simp only [applyT, upperTG, Guards.repaired, hc, hev, if_true, if_false, Bool.false_eq_true, upperHolds, upperSpec] <;> fin_bool
+  cases b with
+  | unb => rfl
+  | incl x => exact hfix true x hb
+  | excl x => exact hfix false x hb
+
 theorem encF_le (a b : Int) (ha : -(2 ^ 53) < a ∧ a < 2 ^ 53) (hb : -(2 ^ 53) < b ∧ b < 2 ^ 53) :
     (encF a ≤ encF b ↔ a ≤ b) ∧ (encF a < encF b ↔ a < b) := by
   have p53 := pow53
